@@ -243,6 +243,12 @@ K["assign_2d_range_all"] = dict(
            "        forall|a: int, b: int| 0 <= a < sink.r && 0 <= b < sink.c ==> #[trigger] sink.at(a, b) == (if (b < cix && hit(ix.d@, ix.d@.len() as int, a)) || (b == cix && hit(ix.d@, k_rix as int, a)) { source } else { old(sink).at(a, b) }),"])
 
 
+# loop variable names the contracts above were written with (by loop ordinal); see vmat.mode_fn
+LOOPVARS = {'assign_1d_scalar': [], 'set_1d_range': ['i'], 'set_1d_range_b': ['i'], 'set_1d_range_vec': ['i'], 'set_1d_range_vec_b': ['i'], 'assign_2d_all_scalar': ['i'], 'assign_2d_scalar_all_scalar': ['i'], 'assign_2d_scalar_range': ['i'], 'assign_2d_scalar_range_b': ['cix'], 'assign_2d_all_range_b': ['cix', 'rix'], 'assign_2d_range_all_b': ['cix', 'rix'], 'assign_2d_range_range': ['rix', 'cix'], 'assign_2d_range_range_b': ['r', 'c'], 'assign_2d_range_range_bu': ['r', 'cix'], 'assign_2d_range_range_ub': ['r', 'c'], 'assign_2d_range_scalar': ['k_rix'], 'assign_2d_range_scalar_b': ['rix'], 'assign_2d_all_range': ['k_cix', 'rix'], 'assign_2d_range_all': ['cix', 'k_rix']}
+for _n, _v in LOOPVARS.items():
+    if _n in K and K[_n].get("loopvars") is None:
+        K[_n]["loopvars"] = _v
+
 MODES = {
     "value": "%s (struct %s): with every index valid the kernel returns normally, every addressed element holds the assigned value, every other element and the shape are unchanged (any matrix size)",
     "reject": "%s (struct %s): if the kernel returns normally then every addressed position exists",
